@@ -388,8 +388,9 @@ func (s *socket) MaybeUpgrade(transport transports.Transport) {
 		socket_log.Debug("client did not complete upgrade - %v", err[0])
 		cleanup()
 		if transport != nil {
+			// the variable is shared with onPacket, which runs on the candidate's reader
+			// goroutine: it is not reset here (Close is a no-op on a closed transport)
 			transport.Close()
-			transport = nil
 		}
 	}
 
